@@ -183,3 +183,17 @@ Definition relay_obs (bodies writes : list bytes) : bytes :=
 
 Definition segment_obs (c : cfg) (live : list bytes) (seg whole : list read_item) : bytes :=
   process_obs c live seg ++ str " | " ++ process_obs c live whole.
+
+(** [oidc] (C13) cases: histories over the session model. *)
+From RDPGW Require Import Model.Oidc.
+
+Definition oidc_obs (ops : list oop) : bytes :=
+  let show (o : oout) : bytes :=
+    match o with
+    | OutToIdP _ => str "idp"
+    | OutFile u => str "file:" ++ hexs u
+    | OutCbRedirect => str "cb302"
+    | OutCb400 => str "cb400"
+    | OutCb500 => str "cb500"
+    end in
+  join [x2c] (map show (orun ostate0 ops)).
